@@ -11,6 +11,7 @@ chosen by the rule, everything else stays an opaque `call` node.  Nothing under
 from __future__ import annotations
 
 import ast
+import hashlib
 import itertools
 from fractions import Fraction
 
@@ -20,8 +21,55 @@ from sa.model import AnalysisError, FuncInfo, ClassInfo, norm_ident, unparse
 _uid = itertools.count(1)
 
 
+_COMMUTATIVE_EXT = {'numpy.maximum', 'numpy.minimum', 'jax.numpy.maximum', 'jax.numpy.minimum', 'numpy.add', 'numpy.multiply', 'jax.numpy.add', 'jax.numpy.multiply',
+                    'numpy.logical_and', 'numpy.logical_or', 'jax.numpy.logical_and', 'jax.numpy.logical_or'}
+_SEQ_ATTRS = ('shape', 'modal_shape', 'nodal_shape', 'dims', 'axis_names', 'names', 'nested_lengths', 'lengths')
+
+
+def _seq_like(t):
+  """Operand of + / * that may be a python sequence (concatenation / repetition do not commute)."""
+  k = t.k
+  if k in ('tuple', 'list', 'dict', 'fstr', 'comp', 'star', 'set'):
+    return True
+  if k == 'const':
+    return isinstance(t.a[0], (str, bytes, tuple, list))
+  if k == 'attr':
+    return t.a[1] in _SEQ_ATTRS
+  if k == 'sub':
+    return _seq_like(t.a[0]) and t.a[1].k == 'slice'
+  if k == 'call':
+    f = t.a[0]
+    return f.k == 'ext' and f.a[0] in ('tuple', 'list', 'str', 'sorted', 'repr')
+  if k == 'bin' and t.a[0] == '+':
+    return _seq_like(t.a[1]) or _seq_like(t.a[2])
+  return False
+
+
+def _prim_key(v):
+  if isinstance(v, Term):
+    return v.key()
+  if isinstance(v, tuple):
+    return b'(' + b','.join(_prim_key(x) for x in v) + b')'
+  if isinstance(v, bool) or isinstance(v, (int, Fraction)):
+    return b'N' + str(Fraction(int(v) if isinstance(v, bool) else v)).encode()
+  if isinstance(v, float):
+    if v != v or v in (float('inf'), float('-inf')):
+      return b'F' + repr(v).encode()
+    return b'N' + str(Fraction(v)).encode()
+  if isinstance(v, str):
+    return b'S' + v.encode('utf-8', 'surrogatepass')
+  if v is None:
+    return b'None'
+  if v is Ellipsis:
+    return b'...'
+  return b'R' + repr(v).encode('utf-8', 'backslashreplace')
+
+
 class Term:
-  __slots__ = ('k', 'a', 'cls', 'loc', '_h')
+  """Expression node.  Equality is structural *modulo commutativity* of numeric `+` / `*` and of the symmetric
+  numpy binaries (maximum, minimum, …): `a * b` and `b * a` are one term, so rules that compare or look up terms
+  give the same verdict on operand-swapped source.  (`cls` and `loc` are annotations, not part of the identity.)"""
+  __slots__ = ('k', 'a', 'cls', 'loc', '_h', '_key')
 
   def __init__(self, k, *a, cls=None, loc=None):
     self.k = k
@@ -29,18 +77,27 @@ class Term:
     self.cls = cls
     self.loc = loc
     self._h = None
+    self._key = None
+
+  def key(self):
+    if self._key is None:
+      k, a = self.k, self.a
+      parts = [_prim_key(x) for x in a]
+      if k == 'bin' and a[0] in ('+', '*') and not (_seq_like(a[1]) or _seq_like(a[2])):
+        parts[1:3] = sorted(parts[1:3])
+      elif k == 'call' and a[0].k == 'ext' and a[0].a[0] in _COMMUTATIVE_EXT and len(a[1]) == 2 and not a[2]:
+        parts[1] = b'(' + b','.join(sorted(_prim_key(x) for x in a[1])) + b')'
+      elif k == 'cmp' and len(a[0]) == 1 and a[0][0] in ('==', '!='):
+        parts[1] = b'(' + b','.join(sorted(_prim_key(x) for x in a[1])) + b')'
+      self._key = hashlib.blake2b(k.encode() + b'|' + b'|'.join(parts), digest_size=16).digest()
+    return self._key
 
   def __eq__(self, other):
-    return (
-        isinstance(other, Term)
-        and self.k == other.k
-        and hash(self) == hash(other)
-        and self.a == other.a
-    )
+    return isinstance(other, Term) and (self is other or (self.k == other.k and self.key() == other.key()))
 
   def __hash__(self):
     if self._h is None:
-      self._h = hash((self.k, self.a))
+      self._h = hash(self.key())
     return self._h
 
   def __repr__(self):
@@ -48,6 +105,7 @@ class Term:
 
   def with_cls(self, cls):
     t = Term(self.k, *self.a, cls=cls, loc=self.loc)
+    t._key = self._key
     return t
 
 
@@ -184,7 +242,37 @@ def subterms(t, pred):
   return [x for x in walk(t) if pred(x)]
 
 
+def _is_number(t):
+  return t.k == 'const' and isinstance(t.a[0], (int, float, Fraction)) and not isinstance(t.a[0], bool)
+
+
+def canon_operands(op, l, r):
+  """One spelling for arithmetically identical forms (all exact in IEEE arithmetic):
+  a numeric literal goes first in + and *;  a + (-b) ≡ a - b;  a - (-b) ≡ a + b."""
+  if op in ('+', '*') and _is_number(r) and l.k not in ('const', 'tuple', 'list', 'dict', 'fstr', 'comp', 'star'):
+    l, r = r, l
+  if op == '+':
+    # (-a) + b ≡ b - a
+    if l.k == 'un' and l.a[0] == '-' and not (r.k == 'un' and r.a[0] == '-'):
+      op, l, r = '-', r, l.a[1]
+    elif _is_number(l) and l.a[0] < 0 and not _is_number(r):
+      op, l, r = '-', r, const(-l.a[0])
+  while op in ('+', '-'):
+    flip = {'+': '-', '-': '+'}[op]
+    if r.k == 'un' and r.a[0] == '-':
+      op, r = flip, r.a[1]
+    elif _is_number(r) and r.a[0] < 0:
+      op, r = flip, const(-r.a[0])
+    else:
+      break
+    if op == '+' and _is_number(r) and l.k not in ('const', 'tuple', 'list', 'dict', 'fstr', 'comp', 'star'):
+      l, r = r, l
+  return op, l, r
+
+
 def mk_bin(op, l, r, loc=None):
+  """`bin` term in the evaluator's canonical operand form (use this to build reference terms)."""
+  op, l, r = canon_operands(op, l, r)
   return Term('bin', op, l, r, loc=loc)
 
 
@@ -916,6 +1004,7 @@ class Evaluator:
       f = _fold_bin(op, l.a[0], r.a[0])
       if f is not None:
         return f
+    op, l, r = canon_operands(op, l, r)
     if op == '+' and l.k == r.k and l.k in ('tuple', 'list') and not any(x.k == 'star' for x in l.a + r.a):
       return Term(l.k, *(l.a + r.a))
     if op == '*' and l.k in ('tuple', 'list') and r.k == 'const' and isinstance(r.a[0], int) and 0 <= r.a[0] <= 64:
@@ -1492,6 +1581,7 @@ class Evaluator:
   def call_func(self, fi, cenv, args, kwargs, ctx, node, callee_term=None):
     loc = self.loc(node) if node is not None else None
     opaque_term = callee_term if callee_term is not None else Term('func', fi.qualname)
+    args, kwargs = self.canonical_args(fi, args, kwargs)
     if fi.qualname == 'dinosaur.pytree_utils.tree_map_over_nonscalars' and self.opt.model_nonscalar and len(args) == 2 and not kwargs:
       return self.tree_map(args[0], [args[1]], {}, ctx, node)
     if fi.qualname == 'dinosaur.spherical_harmonic._with_vertical_padding' and self.opt.model_vertical_padding and args:
@@ -1502,7 +1592,6 @@ class Evaluator:
         data = [x for x in args if not (fi.cls is not None and x is args[0])]
         if data and data[0].cls is not None:
           rc = data[0].cls
-      args, kwargs = self.canonical_args(fi, args, kwargs)
       return mk_call(opaque_term, args, kwargs, cls=rc, loc=loc)
     return self.invoke(fi, args, kwargs, ctx, node, cenv=cenv, opaque_term=opaque_term)
 
